@@ -98,13 +98,22 @@ def run(tier, seed, replay=None):
         ks = list(range(nops))
         if not full:
             # one index for every distinct (operation, path) of the clean run, plus random ones
+            # (the first three occurrences per connection: the same file is stat'ed / read by several layers in one request)
             first = {}
+            occ = {}
             for o in fsops:
-                first.setdefault((o["op"], o["path"]), o["seq"])
+                key = (o["op"], o["path"], o.get("owner"))
+                occ[key] = occ.get(key, 0) + 1
+                if occ[key] <= 3:
+                    first.setdefault(key + (occ[key],), o["seq"])
             ks = sorted(set(first.values()) | set(rng.sample(ks, min(len(ks), 30))))
+        reads = {o["seq"] for o in fsops if o["op"] in ("read", "readat")}
         for k in ks:
             worlds.append(world("err@%d" % k, copy.deepcopy(base_conns), faults={str(k): "err"}))
             worlds.append(world("short@%d" % k, copy.deepcopy(base_conns), faults={str(k): "short"}))
+            if k in reads:
+                # the file ended early (it shrank after it was opened): a short read that reports end of file, no error
+                worlds.append(world("eof@%d" % k, copy.deepcopy(base_conns), faults={str(k): "eof"}))
         for i in range(20 if not full else 2000):
             a, b = rng.sample(range(nops), 2)
             worlds.append(world("pair@%d,%d" % (a, b), copy.deepcopy(base_conns), faults={str(a): rng.choice(["err", "short"]), str(b): rng.choice(["err", "short"])}))
@@ -120,6 +129,6 @@ def run(tier, seed, replay=None):
         rep.cov["fs_operations_in_clean_run"] = nops
         rep.cov["exhaustive"] = full
         rep.cov["samples"] = [{"world": worlds[0]["name"], "conn": worlds[0]["conns"][1]}, {"world": worlds[-1]["name"], "faults": worlds[-1].get("faults")}]
-        rep.assumptions += ["faults are injected by an afero.Fs decorator below the server's fs.FS (exported Handler.Fs): an injected error replaces the operation, a short read/write performs half of it",
+        rep.assumptions += ["faults are injected by an afero.Fs decorator below the server's fs.FS (exported Handler.Fs): an injected error replaces the operation, a short read/write performs half of it and reports an error, an early end of file performs half of a read and reports io.EOF",
                             "what the code deliberately skips under errors (unreadable directory entries, dir-size terms) is not demanded"]
     return rep.finish()
